@@ -57,4 +57,14 @@ PROPS = {
         'level_text': 'All C14 laws (order independence, union = sum, remove/sub undo insert/add, digest and hex round-trips, equality with the published column-wise definition, closure of canonical values under the whole API incl. every from_digest input) are Lean theorems about a model that keeps the u32/u64 conversions of the code; the model is tied to the code by byte-exact digest comparison on seeded multisets/programs/hex strings and the primes are regenerated from the source each run.',
         'level_note': 'Trusted: Lean kernel; axioms propext, Classical.choice, Quot.sound; SHA3-256 as a parameter (cross-checked three ways: sha3 crate, Python hashlib); correspondence is agreement on generated cases only. Non-ASCII hex strings excluded (outside the property).',
     },
+    'C11': {
+        'trusted': ['child cursors in the model are reference cursors (list + position); SST and lazy children are covered by the substitution theorems (*_over) plus the correspondence runs over real SstCursor/LazyCursor children'],
+        'assumptions': ['merging: children pairwise distinct in (key, timestamp) (hypothesis Family of merging_refines); with duplicates the property is only checked (stream mergedup: model = implementation exactly, oracle = some merge of the children)',
+                        'concat: children in key order (seek predicates switch once along the concatenation); the vector of children is non-empty (the constructor asserts it)',
+                        'tables are sorted by (key asc, timestamp desc) without repeated (key, timestamp) inside one table',
+                        'D-2, D-18, D-19 repaired (fixes/d2-concat-next.diff, d18-concat-seek.diff, d19-bounds-prev.diff); on unrepaired code the harness asks for the as-is models and the oracle reports the three classes'],
+        'partial': [],
+        'level_text': 'For each of the five combinators a Lean theorem states that, for every finite program of seek_to_first/seek_to_last/seek/next/prev (all reversals at all positions), the model of the combinator shows after every call what one reference cursor over the specified list shows (sorted union / concatenation / window = entries in the interval / per key the newest version <= t unless a tombstone / the opened table), plus substitution theorems that lift this to any children that behave like tables. The models mirror the Rust code operation by operation (incl. the implicit binary heap and the direction switch) and are tied to it by running the real combinators over real ReferenceCursor/SstCursor/LazyCursor children on seeded table families and programs and comparing key_value() after every call with the model (exact) and with a vector cursor written from the specification (oracle).',
+        'level_note': 'Trusted: Lean kernel; axioms propext, Classical.choice, Quot.sound; hand-written models + agreement on generated cases only. merging_refines needs pairwise distinct (key,ts) across children; duplicates are explored by the check but not covered by a theorem. The theorems for concat next/seek and bounds prev are about the repaired code (D-2, D-18, D-19); the unrepaired operations are kept as models with machine-checked counterexamples.',
+    },
 }
